@@ -629,13 +629,20 @@ def simulateMinute (fuel : Nat) (e : Engine M) (sym : Nat) (real : Candle) : Eng
   let e3 := setCurrentPrice e2 sym real.c
   checkLiquidation u e3 sym real
 
+/-- the minutes of a chunk as the matching loop walks them: each one after the first starts at the previous minute's
+    (raw) close — `path_candles` of `_simulate_price_change_effect_multiple_candles` -/
+def fixChunk : Option Candle → List Candle → List Candle
+  | _, [] => []
+  | none, c :: cs => c :: fixChunk (some c) cs
+  | some p, c :: cs => Jesse.Gen.fixJump p c :: fixChunk (some c) cs
+
 /-- the re-selection of the fast simulator after a fill: the orders inside the chunk's aggregate candle, sorted
-    along what remains of the path (`rest` of this minute, then the remaining minutes); orders the sort leaves
+    along what remains of the path (`rest` of this minute, then the remaining minutes, each jump-fixed); orders the sort leaves
     out (reachable only through a gap) keep their place at the end -/
-def chunkReselect (sym : Nat) (real : Candle) (more : List Candle) (e : Engine M) (rest : Candle) : List Nat :=
+def chunkReselect (sym : Nat) (real : Candle) (c : Candle) (more : List Candle) (e : Engine M) (rest : Candle) : List Nat :=
   let os := executingOrders e sym real
   if os.length > 1 then
-    let s := sortExecutionOrders e os (rest :: more)
+    let s := sortExecutionOrders e os (rest :: fixChunk (some c) more)
     s ++ os.filter (fun o => !s.contains o)
   else os
 
@@ -648,7 +655,7 @@ def simulateChunk (fuel : Nat) (e : Engine M) (sym : Nat) (cs : List Candle) : E
     let os := executingOrders e sym real
     let e1 :=
       if os.length > 0 then
-        let sorted := if os.length > 1 then sortExecutionOrders e os cs else os
+        let sorted := if os.length > 1 then sortExecutionOrders e os (fixChunk none cs) else os
         -- per-minute loop on candles extended to the previous close; re-selection on the aggregate, sorted along
         -- the path that remains (the rest of this minute, then the remaining raw minutes); what the sort leaves
         -- out stays at the end in registry order
@@ -660,7 +667,7 @@ def simulateChunk (fuel : Nat) (e : Engine M) (sym : Nat) (cs : List Candle) : E
             let cur : Candle := match prev with
               | some p => Jesse.Gen.fixJump p c
               | none => c
-            let resel := chunkReselect sym real more
+            let resel := chunkReselect sym real c more
             let (e1, cur') := matchLoop u fuel e sym cur cands resel true
             if e1.err.isSome then e1 else
             let e2 := addCandle e1 sym 1 c
